@@ -217,6 +217,16 @@ def strace_available():
     return _strace_ok[0]
 
 
+def _run_in_other_process(dbpath, home, spec):
+    child = os.path.join(os.path.dirname(os.path.dirname(os.path.abspath(__file__))), "kit", "store_child.py")
+    with open(os.path.join(home, "other_process.json"), "w") as f:
+        json.dump(dict(spec, db=dbpath), f)
+    env = dict(os.environ, PYTHONDONTWRITEBYTECODE="1", PYTHONHASHSEED="random")
+    r = subprocess.run([sys.executable, child, os.path.join(home, "other_process.json")], env=env, stdout=subprocess.PIPE,
+                       stderr=subprocess.PIPE, timeout=120)
+    return r.returncode, (r.stdout + r.stderr).decode("utf-8", "replace")
+
+
 def _syscall_crash(out, dbdir, home, spec, selector, kind, P, exp_before, own, allow):
     """returns True when a violation was recorded"""
     if not strace_available():
@@ -497,6 +507,25 @@ def run_case(case):
                     return out
                 if "syscall_crash:killed" in out.labels:
                     nt = True
+            if case.get("other_process") and spec is not None:
+                # the update is made by another process (the party restarted: a new interpreter, with its own hash seed) and read
+                # back here; no crash involved
+                _close(store)
+                rc, report = _run_in_other_process(dbpath, home, spec)
+                store = LiteAxolotlStore(dbpath)
+                out.label("update_made_by_another_process")
+                nt = True
+                if rc == 3 and may_refuse is not None:
+                    getattr(model, may_refuse[0])[may_refuse[1]] = may_refuse[2]
+                    out.label("replace_refused")
+                elif rc != 0:
+                    out.fail("api", "api:%s_fails_in_another_process" % kind, {"step": step, "rc": rc, "report": report[-300:]})
+                    return out
+                d = compare(read_store(store, P), expect_of(model), own)
+                if d:
+                    out.fail("durability", "durability:written_by_another_process:%s" % d.split("[")[0], {"step": step, "diff": d[:400], "kind": kind})
+                    return out
+                continue
             # execute (under the recorder)
             if crash:
                 rec_ = CrashRecorder(dbdir, snaproot)
@@ -617,6 +646,16 @@ def _enum_basic():
                                     ["store_session", 1, 3], ["delete_all", 1], ["reopen"]]}
 
 
+def _enum_other_process():
+    yield {"sub": "script", "crash": False, "other_process": True,
+           "ops": [["save_identity", 0, 0], ["store_session", 0, 0], ["store_prekey"], ["store_prekey"], ["store_signed"], ["store_sender_key", 0, 0, 0],
+                   ["store_sender_key", 1, 1, 1], ["reopen"], ["save_identity", 0, 1], ["store_session", 0, 1], ["set_sent", [0]], ["remove_prekey", 1],
+                   ["store_sender_key", 0, 0, 2], ["delete_session", 0], ["reopen"]]}
+    yield {"sub": "script", "crash": False, "other_process": True,
+           "ops": [["store_sender_key", 0, 1, 0], ["store_sender_key", 1, 0, 1], ["store_sender_key", 0, 1, 2], ["store_session", 1, 2],
+                   ["store_session_other_device", 1, 0], ["store_signed"], ["restore_signed", 0, 2], ["remove_signed", 0], ["reopen"]]}
+
+
 def _enum_syscall_crash():
     """the update of the last step in a process of its own, killed at each of its write-type system calls in turn"""
     scripts = [
@@ -638,10 +677,11 @@ def plan(tier):
     script = st.builds(lambda ops, sc: dict({"sub": "script", "ops": ops}, **({"syscall_crash": sc} if sc else {})),
                        st.lists(op_strategy(), min_size=1, max_size=14),
                        st.one_of(st.none(), st.none(), st.tuples(st.integers(0, 13), st.integers(0, 40)).map(list)))
+    other = st.lists(op_strategy(), min_size=2, max_size=8).map(lambda ops: {"sub": "script", "crash": False, "other_process": True, "ops": ops})
     return {
         "shards": 16,
-        "enumerations": [("basic_scripts", _enum_basic), ("syscall_crash_sweep", _enum_syscall_crash)],
-        "strategies": [("scripts", script, 60 if quick else 1500)],
+        "enumerations": [("basic_scripts", _enum_basic), ("syscall_crash_sweep", _enum_syscall_crash), ("other_process_basic", _enum_other_process)],
+        "strategies": [("scripts", script, 60 if quick else 1500), ("updates_by_another_process", other, 4 if quick else 60)],
         "shrink": "ddmin",
         "budget_s": 150 if quick else 1500,
     }
